@@ -55,6 +55,8 @@ def validate(ctx, out_dir, prefix, group="all", max_close_ms=1200,
                 key = "life:leak:" + "+".join(sorted(set(ev.get("names", []))))
             elif ev.get("blocked", 0) or ev.get("stuck", 0):
                 key = "life:blocked-calls-left"
+        elif ev.get("ev") == "closeStuck":
+            key = "life:close-never-returns"
         elif ev.get("ev") == "closeRet":
             key = "life:closeRet:w=%s" % ("late" if ev.get("w", 0) > max_close_ms
                                          else "early-or-error")
